@@ -164,7 +164,38 @@ def r016(ctx):
                             q = q["pat"]
                         return "_" if q.get("k") == "pwild" else (q.get("path") or q.get("k"))
                     shapes.append((shp(pt["subs"][0]), shp(pt["subs"][1])))
-            if any(a_ != "_" and b_ == "_" and ("_", a_) in shapes for a_, b_ in shapes):
+            mirrored = False
+            armlist = []
+            for arm in m["arms"]:
+                pt = arm["pat"]
+                while pt.get("k") in ("pref", "pderef"):
+                    pt = pt["pat"]
+                if pt.get("k") == "ptuple" and len(pt["subs"]) == 2:
+                    armlist.append((pt, arm))
+            pnames = [n_ for n_, i_ in [binding_of(p_) for p_ in f["params"] if binding_of(p_)] if i_ in eparams]
+            for (p1, a1) in armlist:
+                for (p2, a2) in armlist:
+                    if a1 is a2:
+                        continue
+                    def wild(q):
+                        while q.get("k") in ("pref", "pderef"):
+                            q = q["pat"]
+                        return q.get("k") == "pwild"
+                    if not (wild(p1["subs"][1]) and wild(p2["subs"][0]) and not wild(p1["subs"][0]) and not wild(p2["subs"][1])):
+                        continue
+                    # the two arms answer alike once the operands (and what the patterns bind) are exchanged: the helper forgets the order.
+                    # A helper that records the side (`(lit, other, true)` / `(lit, other, false)`) does not.
+                    b1 = [n_ for n_, _ in pat_bindings(p1["subs"][0])]
+                    b2 = [n_ for n_, _ in pat_bindings(p2["subs"][1])]
+                    t1, t2 = show(a1["body"]), show(a2["body"])
+                    ren = dict(zip(b2, b1))
+                    if len(pnames) == 2:
+                        ren[pnames[0]], ren[pnames[1]] = pnames[1], pnames[0]
+                    import re as _re
+                    t2r = _re.sub(r"\b(%s)\b" % "|".join(_re.escape(k_) for k_ in ren) if ren else r"$^", lambda mm_: ren[mm_.group(1)], t2)
+                    if t1.replace(" ", "") == t2r.replace(" ", ""):
+                        mirrored = True
+            if mirrored:
                 helpers[path] = f
     # which variants each rule function serves
     disp = ctx.fn("patronus", SIMP + "simplify")
